@@ -45,6 +45,18 @@ Leg "conc" also has the parameter shape "disjoint" (a third of the cases that us
     request whose `with llm_params` block is entered first alters nothing or one parameter, a request entered while that block
     is open alters only the other one.
 
+Configuration mode "multi-step generation" of the legs "seq" and "conc" (cfg {"dialog": True, "ext": "c15-ms", "ms": policy};
+    a third of the generated cases on a dialog-rails configuration, plus the enumerated family "generated flow bodies")
+    `enable_multi_step_generation: True`: for a user intent no flow handles the LLM's generate_next_steps answer is a flow
+    BODY, which the runtime parses, adds to the instance under a fresh id and starts.  Half of the intents the LLM picks in
+    this mode are unhandled ones.  The body is a pure function of the prompt, shaped by the case's policy "ms": `bodies` = size
+    of the pool of bodies (1 / 2 / 3 / 6: one to three bot steps, predefined and LLM-generated messages), `by` = what selects
+    the body - "intent": the last user intent in the prompt (the same kind of request gets the same body, whoever asks),
+    "prompt": a digest of the whole prompt (the shipped template shows intents, not texts, so first turns with the same intent
+    still agree) -, `span`/3 = share of bodies that go on after a wait for a later user turn (`user ...` or a named intent), i.e.
+    are still running when the turn ends.  So the instance starts the SAME body for several conversations, before / between /
+    during the turns of a conversation whose own generated flow is waiting.  Oracle unchanged (isolated replay).
+
 Leg "v2" (Colang 2.x, `import llm` / `activate llm continuation`, cfg {"v": 2, "dialog": "llmc"})
     2-3 conversations of 1-2 turns; every call passes the new user message and the state object returned by the previous call
     ({} on the first turn).  The LLM (pure function of the prompt, parameterised by the case's "llmc" policy) picks the user
@@ -78,11 +90,13 @@ harness's observation points), which refines virtual time: LangChain's agenerate
 A violation is re-checked by running the whole case a second time from scratch (same kind required, else harness error).
 
 Nothing here edits vf.fakes / vf.pipeline; the module subclasses `Session`, `ScriptedLLM` and `Pipeline` (leg v2 uses the
-existing cfg {"v": 2, "dialog": "llmc"} of vf.pipeline as it is).
+existing cfg {"v": 2, "dialog": "llmc"} of vf.pipeline as it is; multi-step generation is switched on through the existing
+opt-in extension point `pipeline.register_extension`, under the name "c15-ms").
 """
 import asyncio
 import hashlib
 import json
+import re
 from collections import Counter, defaultdict
 from typing import Any, Dict, List, Optional
 
@@ -103,8 +117,13 @@ HANG_IS_VIOLATION = False
 WALL = {"quick": 130, "thorough": 1400}
 MAX_STEPS = 400_000
 RULE = (
-    "three legs: seq and conc 4/9 of the generated cases each, v2 1/9, plus three enumerated families. seq: Colang 1.0 config (dialog rails on ~75%, 0-1 input rail of check/rewrite/shipped "
-    "self-check, 0-1 output rail; LLM parameters in real fields or in model_kwargs) x 2-4 conversations of 1-3 turns; texts = 1-3 parts "
+    "three legs: seq and conc 4/9 of the generated cases each, v2 1/9, plus four enumerated families. seq: Colang 1.0 config (dialog rails on ~75%, 0-1 input rail of check/rewrite/shipped "
+    "self-check, 0-1 output rail; LLM parameters in real fields or in model_kwargs; configuration mode MULTI-STEP GENERATION in a third of the seq / non-quiet conc cases with dialog rails: "
+    "enable_multi_step_generation, half of the intents the LLM picks are handled by no flow, the generate_next_steps answer is then a flow BODY the runtime parses, adds and starts - a pure "
+    "function of the prompt under a drawn policy: pool of 1/2/3/6 bodies of 1-3 bot steps, selected by the last user intent (same kind of request -> same body) or by the whole prompt, "
+    "0/1/3 of 3 bodies (drawn from 0,1,3,3) continuing after a wait for a later user turn; so the instance starts the same body for several conversations, also while an earlier conversation's generated flow is "
+    "waiting; enumerated family 'generated flow bodies': same-intent conversations one after the other / A1 B1 A2 with waiting bodies / three conversations behind an input rail with "
+    "prompt-selected bodies / three concurrent tasks - quick 4 cases, thorough 33) x 2-4 conversations of 1-3 turns; texts = 1-3 parts "
     "joined by ':' where a part is an atom of a collision-prone alphabet (a, b, a:b, ':', b:, JSON-looking strings, the predefined bot "
     "message) or a reference resolved from the isolated replays (the reply / the ':'-joined transcript of an earlier conversation); "
     "optional supplied history: user/assistant/context messages, or (2/3 of the later conversations) the transcript of an earlier "
@@ -132,10 +151,12 @@ RULE = (
     "Non-trivial: seq = a request finds, under the ':'-joined key of a proper prefix of its messages, "
     "an entry written by another conversation (identical prefix or colliding key), or overwrites another conversation's entry (harness "
     "model of the cache); conc = LLM calls of two different tasks overlap without nesting in the loop's order of call starts/ends "
-    "(which refines virtual time); v2 = LLM-generated flows were added for at least two conversations on the shared instance. Distinct by case hash; only cases on which the property held are counted."
+    "(which refines virtual time); seq and conc in multi-step generation mode also: the instance started the same LLM-written flow body for two different conversations; "
+    "v2 = LLM-generated flows were added for at least two conversations on the shared instance. Distinct by case hash; only cases on which the property held are counted."
 )
 ASSUMPTIONS = [
     "the LLM is a pure function of the prompt (statement: 'and the LLM's answers to the prompts built from them'); fake rails are pure functions of the text they see",
+    "multi-step generation mode: the LLM writes well-formed bodies only (sequences of `bot <intent>` steps, optionally `user ...` / `user <intent>` followed by one more bot step); hostile bodies are C17's subject. The body is a function of the prompt alone, so two conversations asking the same kind of thing get the same body - what the instance does with a body it has seen before is the subject here",
     "legs seq/conc: Colang 1.0 configurations (the events cache and the three-step generation are Colang 1.0 mechanisms); leg v2: Colang 2.x `llm continuation`, the caller hands the returned state object back ({} on the first turn)",
     "leg v2: the LLM is a pure function of the prompt, and the shipped generate_flow_from_name prompt does not contain the conversation - so a conversation that runs a flow another conversation made the LLM write shows in the prompts (one prompt less), not in the reply text",
     "leg v2: a conversation ends (its caller sends nothing more) after a turn in which the LLM wrote a flow that waits for the next user utterance - that flow and the library's reaction to the utterance race even when the conversation is served alone, so later turns could not be compared",
@@ -145,7 +166,7 @@ ASSUMPTIONS = [
     "the caller keeps each conversation the way a stateless server does: the full message history (supplied history, user messages, returned replies) is passed every turn",
     "a conversation whose supplied history is exactly (roles and contents) the transcript of another conversation served by the instance is the same conversation for the instance and is not judged",
     "asyncio interleavings at the suspension points of the code (LLM calls with generated latencies) only; no OS threads",
-    "the generation log is compared without timing fields and ids; internal events (uids, timestamps) are not compared",
+    "the generation log is compared without timing fields and ids (the random uuid under which an LLM-written flow is started shows as a rail name: replaced by a constant); internal events (uids, timestamps) are not compared",
     "parameters at call end are compared too (a call 'runs with' its parameters until it returns)",
 ]
 
@@ -171,6 +192,65 @@ def _last_user_text(prompt):
         return prompt
     j = prompt.rfind('"')
     return prompt[i + 7: j] if j > i + 7 else prompt[i:]
+
+
+# ---- Colang 1.0 multi-step generation (cfg["ext"] == EXT_MS): the generate_next_steps answer is a flow BODY ----
+EXT_MS = "c15-ms"
+
+
+def _ms_build_config(cfg, colang, yaml_text):
+    import yaml
+
+    y = yaml.safe_load(yaml_text)
+    y["enable_multi_step_generation"] = True
+    return colang, yaml.safe_dump(y, sort_keys=False)
+
+
+pipeline.register_extension(EXT_MS, build_config=_ms_build_config)
+
+# half of the intents the LLM picks in this mode are handled by no flow of the configuration (-> generate_next_steps)
+MS_UNHANDLED = ["ask time", "ask help", "request booking"]
+MS_INTENTS = [fakes.ROUTES[r][0] for r in ("predef", "llm", "pl", "lp", "act_llm", "ll")] + ["ask time", "ask help", "request booking", "ask time", "ask help", "ask time"]
+# bodies: one to three bot steps; `offer help` / `express greeting` have predefined messages, the other messages are LLM-generated
+MS_BODIES = [
+    "bot inform time",
+    "bot acknowledge request\nbot offer help",
+    "bot offer help",
+    "bot inform time\nbot suggest alternatives",
+    "bot acknowledge request\nbot inform status\nbot offer help",
+    "bot express greeting\nbot inform time",
+]
+# continuation after a wait for a later user turn (any intent / a named one that a configured flow may handle as well)
+MS_TAILS = ["user ...\nbot offer help", "user ask time\nbot inform time", "user ...\nbot acknowledge request", "user express greeting\nbot suggest alternatives"]
+MS_POLICY_DEFAULT = {"bodies": 2, "by": "intent", "span": 0}
+
+
+def _ms_policy(cfg):
+    """The case's policy for LLM-written flow bodies, or None when the configuration is not in multi-step generation mode."""
+    if cfg.get("ext") != EXT_MS:
+        return None
+    return dict(MS_POLICY_DEFAULT, **(cfg.get("ms") or {}))
+
+
+def _last_user_intent(prompt):
+    """Last `user <intent>` line of a generate_next_steps prompt (the shipped template shows intents, not texts)."""
+    for line in reversed(prompt.rstrip().split("\n")):
+        if line.startswith("user "):
+            return line
+    return prompt
+
+
+def _ms_body(prompt, ms):
+    """Flow body for a generate_next_steps prompt: a pure function of the prompt, shaped by the case's policy."""
+    d = _dg(_last_user_intent(prompt) if ms.get("by") == "intent" else prompt)
+    body = MS_BODIES[d % max(1, min(int(ms.get("bodies", 1)), len(MS_BODIES)))]
+    if (d // 11) % 3 < int(ms.get("span", 0)):
+        body += "\n" + MS_TAILS[(d // 37) % len(MS_TAILS)]
+    return body
+
+
+def _ms_waits(body):
+    return "\nuser " in str(body)
 
 
 class DigestSession(fakes.Session):
@@ -199,9 +279,13 @@ class DigestSession(fakes.Session):
     def llm_answer(self, task, prompt, turn, k):
         prompt = prompt if isinstance(prompt, str) else json.dumps(prompt, sort_keys=True, default=str)
         d = _dg(prompt)
+        ms = _ms_policy(self.cfg)
         if task == "generate_user_intent":
-            return "  " + INTENTS[_dg(_last_user_text(prompt)) % len(INTENTS)]
+            intents = INTENTS if ms is None else MS_INTENTS
+            return "  " + intents[_dg(_last_user_text(prompt)) % len(intents)]
         if task == "generate_next_steps":
+            if ms is not None:
+                return _ms_body(prompt, ms)
             return "bot " + ("inform time" if d % 2 else "offer help")
         if task in ("self_check_input", "self_check_output"):
             return "Yes" if d % 6 == 0 else "No"
@@ -599,6 +683,14 @@ def _norm_llm_info(ci):
     return [getattr(ci, "task", None), getattr(ci, "prompt", None), getattr(ci, "completion", None)]
 
 
+_UUID = re.compile(r"^[0-9a-f]{8}-[0-9a-f]{4}-[0-9a-f]{4}-[0-9a-f]{4}-[0-9a-f]{12}$")
+
+
+def _norm_rail_name(name):
+    """An LLM-written flow (multi-step generation) is started under a random uuid, which the log shows as the rail's name: an id."""
+    return "<generated flow>" if isinstance(name, str) and _UUID.match(name) else name
+
+
 def _norm_result(res):
     """Everything the caller receives, without timings and ids."""
     if isinstance(res, (dict, str)) or res is None:
@@ -613,7 +705,7 @@ def _norm_result(res):
         lg = {}
         if log.activated_rails is not None:
             lg["activated_rails"] = [
-                {"type": r.type, "name": r.name, "decisions": list(r.decisions), "stop": bool(r.stop),
+                {"type": r.type, "name": _norm_rail_name(r.name), "decisions": list(r.decisions), "stop": bool(r.stop),
                  "actions": [[a.action_name, [_norm_llm_info(c) for c in a.llm_calls]] for a in r.executed_actions]}
                 for r in log.activated_rails
             ]
@@ -829,6 +921,46 @@ class CacheModel:
         self.entries[k] = {"exact": _canon(L), "conv": cid, "tainted": bool(hit and hit["tainted"]), "foreign": bool(hit and hit["foreign"])}
         self.own[cid].add(_canon(L))
         return overwrite
+
+
+# ------------------------------------------------------------------------------------------------
+# multi-step generation mode: what the shared run exercised (labels and non-triviality; NOT part of the oracle)
+
+
+def _ms_facts(cfg, convs, labels):
+    """Labels of the configuration mode "multi-step generation", from the LLM calls of the shared run.  Returns True when
+    the instance was made to start the SAME LLM-written flow body for two different conversations."""
+    ms = _ms_policy(cfg)
+    if ms is None:
+        return False
+    labels += ["multi-step-generation", f"ms-bodies={ms['bodies']}", "ms-body-by=" + str(ms["by"]), f"ms-waiting-body-share={ms['span']}/3"]
+    started = []  # (tick of the generate_next_steps call, conversation, body)
+    for c in convs:
+        for o in c.obs:
+            for rc in o["raw_calls"]:
+                if rc["task"] == "generate_next_steps" and rc.get("answer") is not None:
+                    started.append((rc["k0"], c.cid, str(rc["answer"])))
+    started.sort()
+    if not started:
+        return False
+    labels.append("llm-wrote-a-flow-body")
+    if any(len(b.split("\n")) > 1 for _, _, b in started):
+        labels.append("flow-body-of-several-steps")
+    if any(_ms_waits(b) for _, _, b in started):
+        labels.append("generated-flow-waits-for-a-later-user-turn")
+    same = False
+    for x, (k1, c1, b1) in enumerate(started):
+        for k2, c2, b2 in started[x + 1:]:
+            if c1 == c2 or b1 != b2:
+                continue
+            same = True
+            if _ms_waits(b1) and any(o["req_k0"] is not None and o["req_k0"] > k2 for o in convs[c1].obs if c1 < len(convs)):
+                labels.append("conversation-with-a-waiting-generated-flow-continues-after-another-got-the-same-body")
+            elif any(o["req_k0"] is not None and o["req_k0"] > k2 for o in convs[c1].obs if c1 < len(convs)):
+                labels.append("conversation-continues-after-another-got-the-same-body")
+    if same:
+        labels.append("same-flow-body-started-for-two-conversations")
+    return same
 
 
 # ------------------------------------------------------------------------------------------------
@@ -1063,7 +1195,7 @@ def run_seq(case, problems):
     _drive(_seq_shared(case, shared, convs, iso, sched, model, labels, problems, unjudged, tainted_convs, diverged, state, fill_iso), api)
     skip = unjudged | diverged | {FILLER + k for k in range(n_fill) if k not in fill_iso}
     _set_blocks_match(problems, _blocks_match(shared.ptrace, [iso[i]["ptrace"] for i in iso] + [f["ptrace"] for f in fill_iso.values()], skip=skip))
-    nt = state["nt"]
+    nt = _ms_facts(cfg, convs, labels) or state["nt"]
     if unjudged:
         labels.append("some-conversation-not-judged")
     labels.append(f"switches={min(switches, 4)}{'+' if switches > 4 else ''}")
@@ -1293,7 +1425,7 @@ def run_conc(case, problems):
                     crossing += 1
             if a["e0"] < b["e1"] and b["e0"] < a["e1"] and any(c["exp"] and (c["exp"]["t_start"], c["exp"]["mt_start"]) != conf_pair for c in (a, b)):
                 racing.append((max(a["e0"], b["e0"]), a["task"], b["task"]))
-    nt = crossing > 0
+    nt = _ms_facts(cfg, convs, labels) or crossing > 0
     labels.append("overlap=" + ("crossing" if crossing else "nested-only" if overlapping else "none"))
     vt_cross = any(a["task"] != b["task"] and a["got"]["vt0"] < b["got"]["vt0"] < a["got"]["vt1"] < b["got"]["vt1"] for a in calls for b in calls)
     if vt_cross:
@@ -1693,9 +1825,21 @@ def _st_init(draw, i):
     return out
 
 
+MS_POLICIES = {"bodies": [1, 2, 2, 3, 6], "by": ["intent", "intent", "prompt"], "span": [0, 1, 3, 3]}
+
+
+@st.composite
+def _st_ms(draw, cfg):
+    """Configuration mode "multi-step generation": a third of the cases on a dialog-rails configuration run with
+    enable_multi_step_generation and a drawn policy for the flow bodies the LLM writes (see MS_BODIES / `_ms_body`)."""
+    if not cfg.get("dialog") or not draw(st.sampled_from([True, False, False])):
+        return cfg
+    return dict(cfg, ext=EXT_MS, ms={k: draw(st.sampled_from(v)) for k, v in MS_POLICIES.items()})
+
+
 @st.composite
 def _seq_case(draw, llms=None):
-    cfg = draw(st.sampled_from(SEQ_CFGS))
+    cfg = draw(_st_ms(draw(st.sampled_from(SEQ_CFGS))))
     n = draw(st.sampled_from([2, 2, 3, 3, 4]))
     convs = []
     for i in range(n):
@@ -1735,6 +1879,7 @@ def _conc_case(draw, llms=None, quiet=False):
     """quiet=True: no call alters an LLM parameter (general mode, no self-check rail, no llm_params) - the sub-domain that
     stays judgeable while the llm_params race is a listed open finding."""
     cfg = draw(st.sampled_from([c for c in SEQ_CFGS if not c["dialog"] and "self" not in c["in"] + c["out"]] if quiet else SEQ_CFGS))
+    cfg = draw(_st_ms(cfg))  # (the quiet sub-domain is general mode: no dialog rails, so no multi-step generation there)
     n = draw(st.sampled_from([2, 2, 3, 3, 4, 5]))
     tasks = []
     for _ in range(n):
@@ -1879,7 +2024,51 @@ def _disjoint_family(tier):
                         {"start": 2.0, "users": ["a"], "temp": None, "mt": None, "log": False, "stream": False, "lat": [0]}]}
 
 
+def _ms_texts(intent, fmt=None, n=3):
+    """n different user texts (atoms of the collision-prone alphabet, then pairs of them joined by ':') that the digest LLM
+    maps, in multi-step generation mode, to `intent`; as part lists for the sequential leg (fmt None), or - fmt given - the
+    atoms a of CONC_ATOMS whose task text fmt(a) does."""
+    if fmt is not None:
+        return [a for a in CONC_ATOMS if MS_INTENTS[_dg(fmt(a)) % len(MS_INTENTS)] == intent][:n]
+    plain = [a for a in ATOMS if a != fakes.PREDEF["greet"]]
+    cands = [[a] for a in plain] + [[a, b] for a in plain for b in plain]
+    # (texts the digest verdict of a first input rail of kind "check" accepts, so that the family's cases reach the dialog rails)
+    return [c for c in cands if MS_INTENTS[_dg(":".join(c)) % len(MS_INTENTS)] == intent and _dg("in0|" + ":".join(c)) % 5][:n]
+
+
+def _ms_family(tier):
+    """Deterministic family "generated flow bodies" (multi-step generation): conversations of different users whose requests
+    are of the same kind (same unhandled intent), so the LLM writes the same flow body for each and the instance starts that
+    body once per conversation - (a) one after the other, (b) A1 B1 A2 with bodies that wait for the next user turn (A's
+    generated flow is waiting while B's is started, then A goes on), (c) three conversations and a pool of two bodies selected
+    by the whole prompt, behind an input rail, (d) as concurrent tasks.  Thorough: all unhandled intents x call modes x LLMs."""
+    base = {"v": 1, "in": [], "out": [], "dialog": True, "exc": False, "ret": 0, "ext": EXT_MS}
+    conv = lambda users, **kw: dict({"init": [], "users": users, "log": False, "stream": False, "temp": None, "mt": None}, **kw)  # noqa: E731
+    plans = [("ask time", "async", "field")] if tier == "quick" else [(i, api, llm) for i in MS_UNHANDLED for api, llm in (("async", "field"), ("sync", "kw0"), ("onecoro", "field"))]
+    for intent, api, llm in plans:
+        tx = _ms_texts(intent, n=4)
+        other = _ms_texts("ask help" if intent != "ask help" else "ask time", n=1)
+        if len(tx) < 3 or not other:
+            continue
+        # (a) same kind of request, one conversation after the other
+        yield {"leg": "seq", "config": dict(base, ms={"bodies": 6, "by": "intent", "span": 0}), "llm": llm, "api": api,
+               "convs": [conv([tx[0]]), conv([tx[1]])], "order": [0, 1]}
+        # (b) A1 B1 A2 (and a third conversation afterwards): every body waits for a later user turn
+        yield {"leg": "seq", "config": dict(base, ms={"bodies": 2, "by": "intent", "span": 3}), "llm": llm, "api": "onecoro" if api == "async" else api,
+               "convs": [conv([tx[0], other[0]]), conv([tx[1]]), conv([tx[2], tx[0]], log=True)], "order": [0, 1, 0, 0, 0]}
+        # (c) three conversations, bodies selected by the whole prompt, behind an input rail; the first conversation goes on
+        yield {"leg": "seq", "config": dict(base, **{"in": ["check"], "ms": {"bodies": 2, "by": "prompt", "span": 1}}), "llm": llm, "api": "sync" if api == "async" else api,
+               "convs": [conv([tx[0], tx[1]]), conv([tx[1]]), conv([tx[2]])], "order": [0, 1, 1, 0]}
+        # (d) concurrent tasks
+        ca = [a for t in range(3) for a in _ms_texts(intent, fmt=lambda a, t=t: f"t{t}u0 {a}", n=1)]
+        if len(ca) == 3:
+            yield {"leg": "conc", "config": dict(base, ms={"bodies": 3, "by": "intent", "span": 0}), "llm": llm, "tasks": [
+                {"start": st_, "users": [a], "temp": None, "mt": None, "log": False, "stream": False, "lat": lat}
+                for a, st_, lat in zip(ca, (0, 0.05, 1.0), ([0.1, 0.3], [0.2, 0.1], [0]))]}
+
+
 def enumerate_cases(tier):
+    yield from _ms_family(tier)
     yield from _between_family(tier)
     yield from _disjoint_family(tier)
     shared = _v2_shared_names()
